@@ -29,9 +29,9 @@ type cop struct {
 func (o cop) String() string {
 	switch o.K {
 	case "set":
-		return fmt.Sprintf("set(%s,%d)", o.Key, o.TTL)
+		return fmt.Sprintf("set(%q,%d)", o.Key, o.TTL)
 	case "get", "del":
-		return o.K + "(" + o.Key + ")"
+		return fmt.Sprintf("%s(%q)", o.K, o.Key)
 	}
 	return o.K
 }
@@ -56,7 +56,7 @@ type concPlan struct {
 
 func (p concPlan) String() string {
 	var sb strings.Builder
-	fmt.Fprintf(&sb, "conc g=%d hot=%s cold=%s coldTTL=%v interval=%v maxTTL=%d init=%d reset=%v yield=%d stopAt=%v", p.ng, strings.Join(p.hot, ""), strings.Join(p.cold, ""), p.coldTTL, p.interval, p.maxTTL, p.initSize, p.withReset, p.yield, p.stopAt)
+	fmt.Fprintf(&sb, "conc g=%d hot=%q cold=%q coldTTL=%v interval=%v maxTTL=%d init=%d reset=%v yield=%d stopAt=%v", p.ng, p.hot, p.cold, p.coldTTL, p.interval, p.maxTTL, p.initSize, p.withReset, p.yield, p.stopAt)
 	for g, steps := range p.sched {
 		fmt.Fprintf(&sb, " | g%d:", g)
 		for _, s := range steps {
@@ -75,6 +75,12 @@ func genConc(rng *mon.RNG) concPlan {
 	p.ng = rng.Range(2, 8)
 	p.hot = []string{"k0", "k1", "k2", "k3"}[:rng.Range(1, 4)]
 	p.cold = []string{"u0", "u1", "u2", "u3", "u4", "u5"}[:rng.Range(1, 6)]
+	// the zero-value key "" is a legal key: an untouched one in two of three histories, a hot one otherwise
+	if rng.Chance(2, 3) {
+		p.cold = append([]string{""}, p.cold[1:]...)
+	} else {
+		p.hot = append([]string{""}, p.hot[1:]...)
+	}
 	p.interval = []time.Duration{grid, grid, 2 * grid, 3 * grid}[rng.Intn(4)]
 	p.maxTTL = int64(rng.PickInt(0, 0, 2, 3))
 	p.initSize = int32(rng.PickInt(0, 0, 1, 4))
@@ -149,11 +155,11 @@ func (r *crec) String() string {
 	case "tick":
 		return fmt.Sprintf("t=%v periodic-cleanup", r.t)
 	case "set":
-		return fmt.Sprintf("t=%v g%d set(%s,%s,ttl=%d) call=%d ret=%d", r.t, r.g, r.key, r.val, r.ttl, r.call, r.ret)
+		return fmt.Sprintf("t=%v g%d set(%q,%s,ttl=%d) call=%d ret=%d", r.t, r.g, r.key, r.val, r.ttl, r.call, r.ret)
 	case "get":
-		return fmt.Sprintf("t=%v g%d get(%s)->%q,%v call=%d ret=%d", r.t, r.g, r.key, r.got, r.ok, r.call, r.ret)
+		return fmt.Sprintf("t=%v g%d get(%q)->%q,%v call=%d ret=%d", r.t, r.g, r.key, r.got, r.ok, r.call, r.ret)
 	case "del":
-		return fmt.Sprintf("t=%v g%d delete(%s) call=%d ret=%d", r.t, r.g, r.key, r.call, r.ret)
+		return fmt.Sprintf("t=%v g%d delete(%q) call=%d ret=%d", r.t, r.g, r.key, r.call, r.ret)
 	}
 	return fmt.Sprintf("t=%v g%d %s call=%d ret=%d", r.t, r.g, r.kind, r.call, r.ret)
 }
@@ -275,6 +281,18 @@ func (h *hist) judgeHit(g *crec) {
 		return
 	}
 	rec.Count(h.pre+".get.hit", 1)
+	if g.key == "" {
+		for _, c := range h.cleanups {
+			if before(s, c) && before(c, g) {
+				kind := "manual_cleanup"
+				if c.tick {
+					kind = "periodic_cleanup"
+				}
+				rec.Count(h.pre+".zero_key.hits_after_"+kind, 1)
+				break
+			}
+		}
+	}
 	if h.cold[g.key] {
 		rec.Count(h.pre+".untouched.live_hits", 1)
 	}
